@@ -75,6 +75,18 @@ CORPUS = [
 ]
 
 
+def conc_cases(rng, n):
+    out = []
+    for i in range(n):
+        nodes = [{"id": H(IDS[j]), "addr": H("10.0.0.%d:7000" % (j + 1))} for j in range(2)]
+        ref = rng.choice([H("b"), H("zz")])        # a real member or a node only ever heard of
+        ops = [{"op": "upsert", "n": 1, "k": H("k"), "v": H("v")}, {"op": "join", "a": 1, "b": 0},
+               {"op": "race_expire", "n": 0, "ref": ref, "i": rng.choice([500, 2000, 4000])},
+               {"op": "send", "a": 0, "b": 1, "max": 1400}, {"op": "deliver", "i": 0, "max": 1400}, {"op": "deliver", "i": 0, "max": 1400}]
+        out.append({"id": "conc%d" % i, "nodes": nodes, "ops": ops})
+    return out
+
+
 def run(ctx):
     rng = random.Random(ctx["seed"])
     quick = ctx["tier"] == "quick"
@@ -85,6 +97,17 @@ def run(ctx):
     outs = run_world(binary, wd, cases)
     violations, known = [], []
     mon = [(c, f) for c, o in zip(cases, outs) for f in [monitor(c, o)] if f]
+    # concurrency probes (monitor only; the model is sequential): a node is re-learned from digests and deltas while it
+    # is being suspected and expired on other goroutines - the notifications, in the order they are delivered, must
+    # still fold to the final state (every callback runs with the state lock held)
+    ccases = conc_cases(rng, 4 if quick else 40)
+    couts = run_world(binary, wd, ccases, tag="conc")
+    for c, o in zip(ccases, couts):
+        f = monitor(c, o)
+        if f:
+            violations.append({"what": "C14 monitor (concurrent expiry / re-discovery): %s" % f["why"], "found_input": True,
+                               "replay_obj": {"property": ID, "kind": "monitor-conc", "signature": f["sig"], "why": f["why"], "case": c}})
+            break
     okc = [(c, o) for c, o in zip(cases, outs) if not o.get("panic")]
     dis = correspondence(ID, wd, [c for c, _ in okc], [o for _, o in okc])
     seen = set()
@@ -117,7 +140,7 @@ def run(ctx):
            "samples": [CORPUS[0]["ops"]],
            "correspondence": {"harness": "gossip_h world mode", "histories": len(okc), "ops": sum(len(c["ops"]) for c in cases), "distribution": op_mix(cases),
                               "events": nev, "event_kinds": kinds, "disagreements": len(dis), "seed": ctx["seed"]},
-           "monitor": {"histories": len(cases), "failures": len(mon)}}
+           "monitor": {"histories": len(cases), "failures": len(mon), "concurrent_probes": len(ccases)}}
     return {"coverage": cov, "violations": violations, "known": known}
 
 
